@@ -155,7 +155,7 @@ where
         let pw = unsafe { &*w };
         if r.is_ok() {
             any_ok = true;
-            assert!(pw.levels & mask == vs[i].into() & mask, "[C07] after Ok the data pins show the value written");
+            assert!(pw.levels & mask == vs[i].into() & mask, "[C07][C12] after Ok the data pins show the value written, whatever pin failures came before");
         } else {
             assert!(pw.failed, "[C07][C12] Err only when a pin failed");
         }
